@@ -16,7 +16,8 @@ META = dict(
          "master value and aggregated child value, cross-multiplied rationals) is computed by the spec from recorded pool reserves, prices, "
          "decimals and farmed amounts. Payouts are float results of the code: they are taken from the log (balance deltas of every account) "
          "and judged by the laws: split sums to the deposit; what leaves custody in an epoch <= that epoch's allocation; distributed <= "
-         "deposit; payout*total*10^12 <= alloc*value*(10^12+1) per farmer; custody >= undistributed remainders of active gauges + "
+         "deposit; payout*total*10^12 <= alloc*value*(10^12+1) per farmer (C19_ProRataLetter; C19_ProRata adds the value*10^-18 slack of the code's "
+         "18-decimal multiplier and is never masked); custody >= undistributed remainders of active gauges + "
          "available of external programs per denom (root absolutely, every step in delta form). Exhaustive for the bounded models, "
          "sampled beyond them.",
     note="Trusted: TLC + Json module; the projection (keeper getters, bank balances); farmed amounts are valued with amm.Withdraw at zero fee "
@@ -29,7 +30,8 @@ META = dict(
     design_ref="4 C19",
 )
 
-FORMULAS = ["C19_SplitSum", "C19_Cumulative", "C19_CustodyRoot", "C19_CustodyDelta", "C19_EpochCap", "C19_OnlyInEpoch", "C19_ProRata"]
+FORMULAS = ["C19_SplitSum", "C19_Cumulative", "C19_CustodyRoot", "C19_CustodyDelta", "C19_EpochCap", "C19_OnlyInEpoch", "C19_ProRata",
+            "C19_ProRataLetter"]
 
 
 def _cfg(path, name, nu, maxfarm, maxg, tpl, steps, pools, amts, modes, emit):
@@ -59,8 +61,9 @@ def run(c):
               ("master", 2, 1, 1, "TplMaster", "{1, 3, 5}", "{1, 2}", "{1}", OFF)]
     if not quick:
         models += [("single3", 3, 2, 1, "TplSingle", "{1, 3, 5}", "{1}", "{1, 2}", Q),
-                   ("two", 2, 1, 2, "TplTwo", "{3}", "{1, 2}", "{1}", '{"q"}'),
-                   ("masterall", 2, 1, 1, "TplMasterAll", "{1, 3, 5}", "{1, 2}", "{1}", OFF)]
+                   ("masterall", 2, 1, 1, "TplMasterAll", "{1, 3, 5}", "{1, 2}", "{1}", OFF),
+                   ("twoA", 1, 1, 2, "TplTwo", "{3}", "{1, 2}", "{1}", '{"q"}'),
+                   ("twoB", 2, 1, 2, "TplTwo", "{3}", "{1}", "{1}", '{"q"}')]
     graphs, mstats = [], {}
     for (name, nu, mf, mg, tpl, steps, pools, amts, modes) in models:
         cfg = "MC_Gauge_%s_run.cfg" % name
@@ -87,8 +90,8 @@ def run(c):
         parts = [dict(vectors=tsplit, graphs=graphs[:2], first=0, runs=0, steps=0, nbig=3000),
                  dict(vectors="", graphs=graphs[2:3], first=0, runs=0, steps=0, nbig=0),
                  dict(vectors="", graphs=graphs[3:4], first=0, runs=0, steps=0, nbig=0),
-                 dict(vectors="", graphs=graphs[4:], first=0, runs=120, steps=140, nbig=0),
-                 dict(vectors="", graphs=[], first=120, runs=180, steps=140, nbig=0)]
+                 dict(vectors="", graphs=graphs[4:], first=0, runs=100, steps=140, nbig=0),
+                 dict(vectors="", graphs=[], first=100, runs=200, steps=140, nbig=0)]
     st, nnodes, outs, tstates = {}, 0, [], 0
     smp = [None, None, None]
     for i, pt in enumerate(parts):
@@ -124,6 +127,9 @@ def run(c):
         smp = [a or b for a, b in zip(smp, cand)]
         del nodes
         os.remove(logf)
+        lnk = os.path.join(wd, "log.ndjson")   # vlib.trace_check only replaces the link when its target still exists
+        if os.path.lexists(lnk):
+            os.remove(lnk)
     c.samples = [dict(id=s["id"], run=s["run"], a=s["a"], args=s["args"], parent=s["parent"],
                       st=dict(s["st"], users=s["st"].get("users", [])[:2]) if "users" in s["st"] else s["st"]) for s in smp if s]
     need = ["splits", "bigSplits", "gaugeEpochs", "proRataPaid", "masterPaid", "skippedEpochBlocks", "created", "rejected", "gaugesEnded",
